@@ -186,6 +186,7 @@ Definition view_spec (a : jwe_alg_row) (r : recip) (v : rview) : Prop :=
   match v_p2c v with
   | Some c => fam a "PBES2" = true /\ ea_direct a = false
               /\ c = match r_p2c r with Some x => x | None => ea_p2c a end
+              /\ (1 <=? c) && (c <=? 2147483647) = true
   | None => fam a "PBES2" = false \/ ea_direct a = true
   end.
 
@@ -274,6 +275,7 @@ Lemma encrypt_cek_ok a r w v ds w' :
   end /\
   match v_p2c v with
   | Some c => fam a "PBES2" = true /\ c = match r_p2c r with Some x => x | None => ea_p2c a end
+              /\ (1 <=? c) && (c <=? 2147483647) = true
   | None => fam a "PBES2" = false
   end.
 Proof.
